@@ -667,6 +667,56 @@ def history(d, nconn=None, nmsg=None, tagged=None, profile=None, t0=None, gaps=N
     return out
 
 
+def gen_long_template(d):
+    """a few drawn choices that `expand_long` turns into a history of thousands of messages (drawing every message would
+    exceed what one Hypothesis example can hold): lanes of ids that are created, used, destroyed and handed out again,
+    far enough for incarnation letters beyond z (26) and zz (702)"""
+    nl = d.int(1, 3)
+    ids = []
+    while len(ids) < nl:
+        i = d.choice([3, 5, 6, 7, 12, 40, 1000, 65535, 0x7fffffff, 0xfeffffff])
+        if i not in ids:
+            ids.append(i)
+    lanes = [dict(id=i, kinds=[d.choice(['callback', 'region', 'surface']) for _ in range(d.int(1, 3))], uses=d.int(0, 2)) for i in ids]
+    return dict(side=d.choice(['client', 'client', 'server']), lanes=lanes,
+                cycles=d.choice([d.int(27, 60), d.int(703, 760), d.int(703, 760), d.int(1100, 1500)]),
+                gap=d.choice([0, 1, 1000, 250_000, 1_000_000]), t0=d.choice([0, 1000, 123456789]), tag=d.choice([None, None, 'c1']))
+
+
+def expand_long(tpl):
+    """deterministic expansion of a template from `gen_long_template`"""
+    side = tpl['side']
+    sent = lambda is_event: (side == 'client') != is_event
+    t = [tpl['t0']]
+    out = []
+
+    def emit(is_event, iface, oid, name, args):
+        out.append(dict(conn=tpl['tag'], t_us=min(t[0], T_MAX), sent=sent(is_event), iface=iface, id=oid, name=name, args=args))
+        t[0] += tpl['gap']
+    emit(False, 'wl_display', 1, 'get_registry', [['new', 'wl_registry', 2]])
+    emit(False, 'wl_registry', 2, 'bind', [['uint', 1], ['str', 'wl_compositor'], ['uint', 4], ['new', None, 4]])
+    for c in range(tpl['cycles']):
+        for lane in tpl['lanes']:
+            x = lane['id']
+            kind = lane['kinds'][c % len(lane['kinds'])]
+            if kind == 'callback':
+                emit(False, 'wl_display', 1, 'sync', [['new', 'wl_callback', x]])
+                for u in range(min(lane['uses'], 1)):
+                    emit(True, 'wl_callback', x, 'done', [['uint', c]])
+            elif kind == 'region':
+                emit(False, 'wl_compositor', 4, 'create_region', [['new', 'wl_region', x]])
+                for u in range(lane['uses']):
+                    emit(False, 'wl_region', x, 'add', [['int', u], ['int', c], ['int', 1], ['int', 1]])
+                emit(False, 'wl_region', x, 'destroy', [])
+            else:
+                emit(False, 'wl_compositor', 4, 'create_surface', [['new', 'wl_surface', x]])
+                for u in range(lane['uses']):
+                    emit(False, 'wl_surface', x, 'commit', [])
+                emit(False, 'wl_surface', x, 'destroy', [])
+            emit(True, 'wl_display', 1, 'delete_id', [['uint', x]])
+    return out
+
+
 def labels_of(hist):
     """case classes of a history (for the evidence histogram)"""
     from . import model
